@@ -131,6 +131,111 @@ def recycle_family():
     return out
 
 
+MC_OF = os.path.join(ROOT, "spec/mc/MC_ObjectFactory.tla")
+TRACE_OBJ = os.path.join(ROOT, "spec/trace/Trace_C11obj.tla")
+
+
+def object_factory_family(res, wd, tier, seed):
+    """MC_ObjectFactory: the transcribed object factory (recycling caches, the conversions its classes cache) refines ValueObjects for every
+    history within the bounds; with either seeded switch on, the counterexample must appear.  One shortest history per state of the model
+    (and seeded random longer ones) is replayed on the real XObjectFactoryDefault, whose answers Trace_C11obj judges."""
+    import json, re, subprocess, tlaparse
+    quick = tier == "quick"
+    base = open(os.path.join(ROOT, "spec/mc/MC_ObjectFactory.cfg")).read()
+    if not quick:
+        base = base.replace("MaxHist = 5", "MaxHist = 6")
+    cfg = os.path.join(wd, "of.cfg"); open(cfg, "w").write(base)
+    dump = os.path.join(wd, "of")
+    r = vlib.tlc(MC_OF, cfg, workers=1, name="c11of", timeout=3000, extra=["-noGenerateSpecTE", "-deadlock", "-dump", dump])
+    if not r["ok"]:
+        raise vlib.Infra("MC_ObjectFactory failed:\n" + r["out"][-3000:])
+    res.add_mc(r, "MC_ObjectFactory (ObjectFactoryImpl refines ValueObjects: Honest, CachesSane; every history of create / ask / return / reset)")
+    for name, sw in (("keep", "KeepNumberWithoutString"), ("skip", "SkipSetOfEqualNumber")):
+        c2 = os.path.join(wd, "of_%s.cfg" % name); open(c2, "w").write(base.replace(sw + " = FALSE", sw + " = TRUE"))
+        r2 = vlib.tlc(MC_OF, c2, workers=1, name="c11of" + name, timeout=3000, extra=["-noGenerateSpecTE", "-deadlock"])
+        violated = re.findall(r"Invariant (\w+) is violated", r2["out"])
+        if r2["rc"] != 12 or violated != ["Honest"]:
+            raise vlib.Infra("MC_ObjectFactory with %s: the expected counterexample to Honest did not appear (rc=%s %s)" % (sw, r2["rc"], violated))
+        res.notes.setdefault("expected_counterexamples", []).append({"model": "MC_ObjectFactory/" + sw, "invariant": "Honest",
+                                                                      "trace_states": len(re.findall(r"^State \d+:", r2["out"], re.M))})
+    hists = [s_["hist"] for s_ in tlaparse.read_dump(dump + ".dump", only={"hist"}) if s_["hist"]]
+    os.remove(dump + ".dump")
+    # keep the histories that end in an answer (the others are prefixes of those) - and a sample of the rest
+    hists = [h for h in hists if h[-1]["op"] == "ask"]
+    rng = random.Random(seed + 5)
+    def recycles(h):          # an object is created after one of its class was returned: the interesting histories
+        seen = set()
+        for o_ in h:
+            if o_["op"] == "return":
+                seen.add(next(x["kind"] for x in h if x["op"] == "create" and x["id"] == o_["id"]))
+            elif o_["op"] == "create" and o_["kind"] in seen:
+                return True
+        return False
+    rec = [h for h in hists if recycles(h)]
+    rest = [h for h in hists if not recycles(h)]
+    cap = 12000 if quick else 120000
+    if len(rec) > cap:
+        rec = rng.sample(rec, cap)
+    hists = rec + rng.sample(rest, min(len(rest), max(1000, (cap - len(rec)) // 4)))
+    res.notes["object_factory_model_histories_with_recycling"] = len(rec)
+    # random longer histories over the same vocabulary
+    NUMS, STRS = ["0", "Z", "1h", "NaN", "B", "2"], ["", "2", "x", "0", "B", "NaN", "1.5"]
+    NSV = [{"first": "", "n": 0}] + [{"first": s_, "n": 1} for s_ in STRS] + [{"first": "2", "n": 2}]
+    for _ in range(300 if quick else 6000):
+        h, live, nid = [], [], 0
+        for _k in range(rng.randint(8, 40)):
+            c_ = rng.random()
+            if (c_ < 0.3 and len(live) < 4) or not live:
+                kind = rng.choice(["num", "str", "ns", "ns"]); nid += 1
+                h.append({"op": "create", "kind": kind, "val": rng.choice({"num": NUMS, "str": STRS, "ns": NSV}[kind]), "id": nid}); live.append(nid)
+            elif c_ < 0.75:
+                h.append({"op": "ask", "id": rng.choice(live), "how": rng.choice(["str", "num", "num", "bool"])})
+            else:
+                o_ = rng.choice(live); live.remove(o_); h.append({"op": "return", "id": o_})
+        hists.append(h)
+    cases = [{"id": k, "ops": h} for k, h in enumerate(hists)]
+    # the model's ids are the recycled objects' identities; the harness takes them as names of what the caller holds: rename per creation
+    for c_ in cases:
+        cur, n_ = {}, 0
+        for o_ in c_["ops"]:
+            if o_["op"] == "create":
+                n_ += 1; cur[o_["id"]] = n_; o_["id"] = n_
+            elif "id" in o_:
+                o_["id"] = cur[o_["id"]]
+    exe = vlib.build_harness("xobj")
+    nsh = vlib.NCPU
+    procs = []
+    for s_ in range(nsh):
+        ch = cases[s_::nsh]
+        if not ch:
+            continue
+        cp = os.path.join(wd, "of-cases-%d.ndjson" % s_); vlib.write_ndjson(cp, ch)
+        rp = os.path.join(wd, "of-trace-%d.ndjson" % s_)
+        procs.append((rp, subprocess.Popen([exe, cp], stdout=open(rp, "w"), stderr=subprocess.PIPE)))
+    events = []
+    for rp, p_ in procs:
+        _, err = p_.communicate(timeout=1800)
+        if p_.returncode != 0:
+            res.violation("object factory replay died (rc=%s): %s" % (p_.returncode, (err or b"").decode()[-300:]), vlib.read_ndjson(rp)[-12:])
+        events += vlib.read_ndjson(rp)
+    rejects, st = vlib.tlc_validate_sharded(TRACE_OBJ, events, tag="c11obj", timeout=3000)
+    execs = vlib.split_executions(events)
+    starts, pos = [], 0
+    for ex in execs:
+        starts.append(pos); pos += len(ex)
+    import bisect
+    bad = set()
+    for rj in rejects:
+        e_ = bisect.bisect_right(starts, rj["line"]) - 1
+        if e_ in bad:
+            continue
+        bad.add(e_)
+        res.violation("value object: " + rj["msg"][:300], execs[e_][:rj["line"] - starts[e_] + 1])
+    res.notes["object_factory_histories"] = len(execs)
+    res.notes["object_factory_recycled"] = sum(1 for ex in execs if len({e_["real"] for e_ in ex if e_.get("e") == "create"}) < sum(1 for e_ in ex if e_.get("e") == "create"))
+    return len(execs), len(execs) - len(bad)
+
+
 def opcodes_in_source():
     txt = open(os.path.join(REPO, "src/xalanc/XPath/XPathExpression.hpp")).read()
     return sorted(set(re.findall(r"\b(eOP_[A-Z0-9_]+)\s*=\s*\d+", txt)))
@@ -194,6 +299,9 @@ def run(res, tier, seed):
     res.cov["rule"] = ("every op code of XPathExpression::eOpCodes that can head an expression (list extracted from the header at check time; "
                        "%d covered, unmodelled: %s) x operand shapes x the six XPath::execute entry points x sampled contexts; non-trivial = a typed entry "
                        "point (not the general one) returned a value; distinct by (text, entry point, document, context)" % (len(table), unmodelled or "none"))
+    nof, nof_ok = object_factory_family(res, wd, tier, seed)
+    res.cov["evaluations"] += nof
+    res.cov["traces_validated_against_impl"] += nof_ok
     for ev in events[::max(1, len(events) // 5)][:5]:
         res.sample({"text": ev["text"], "kind": ev["kind"], "doc": ev["doc"], "ctx": ev["ctx"], "res": ev.get("res", ev.get("error"))})
     res.assumptions += ["the general value itself is judged by C02; here each typed entry point must equal Convert(kind, general value) of the specification",
